@@ -304,6 +304,24 @@ def check_range(rec: Rec, case: dict) -> None:
             hdrs.append(("If-Range", date_old)); have["if-range"] = "stale"
         elif atom == "if-range-new":
             hdrs.append(("If-Range", date_new)); have["if-range"] = "fresh"
+        elif atom == "if-range-etag-same":
+            hdrs.append(("If-Range", etag)); have["if-range"] = "fresh"
+        elif atom == "if-range-etag-other":
+            hdrs.append(("If-Range", '"zzz"')); have["if-range"] = "stale"
+        elif atom == "if-range-etag-weak":
+            hdrs.append(("If-Range", "W/" + etag)); have["if-range"] = "stale"  # If-Range needs a strong match (RFC 9110 13.1.5)
+        elif atom == "if-none-match-star":
+            hdrs.append(("If-None-Match", "*")); have["inm"] = True
+        elif atom == "if-none-match-weak-same":
+            hdrs.append(("If-None-Match", "W/" + etag)); have["inm"] = True  # weak comparison
+        elif atom == "if-none-match-list":
+            hdrs.append(("If-None-Match", '"aaa", ' + etag + ', "bbb"')); have["inm"] = True
+        elif atom == "if-match-star":
+            hdrs.append(("If-Match", "*")); have["im"] = True
+        elif atom == "if-match-weak-same":
+            hdrs.append(("If-Match", "W/" + etag)); have["im"] = False  # strong comparison: a weak tag never matches
+        elif atom == "if-match-list":
+            hdrs.append(("If-Match", '"aaa", ' + etag)); have["im"] = True
         elif atom == "if-none-match-same":
             hdrs.append(("If-None-Match", etag)); have["inm"] = True
         elif atom == "if-none-match-other":
@@ -440,7 +458,8 @@ COMBOS = ["if-none-match-other+if-modified-since-new", "if-none-match-same+if-mo
           "if-match-other+if-none-match-same", "if-unmodified-since-new+if-modified-since-new", "if-match-same+if-none-match-same",
           "if-none-match-other+if-modified-since-new+if-range-old", "if-unmodified-since-old+if-none-match-same"]
 CONDS = [None, "if-range-old", "if-range-new", "if-none-match-same", "if-none-match-other", "if-match-other", "if-match-same", "if-modified-since-new", "if-modified-since-old",
-         "if-unmodified-since-old", "if-unmodified-since-new"] + COMBOS
+         "if-unmodified-since-old", "if-unmodified-since-new", "if-range-etag-same", "if-range-etag-other", "if-range-etag-weak", "if-none-match-star",
+         "if-none-match-weak-same", "if-none-match-list", "if-match-star", "if-match-weak-same", "if-match-list"] + COMBOS
 
 
 def units(tier: str, seed: int) -> list[Unit]:
